@@ -63,11 +63,13 @@ func (r *SecureRealm[A, Pub]) Drop(s *SecureSwarm[A, Pub]) {
 		panic("drop called with Swarm from a different Realm")
 	}
 	r.mu.Lock()
-	defer r.mu.Unlock()
 	s2, exists := r.swarms[s.local]
+	r.mu.Unlock()
 	if !exists || s2 != s {
 		panic("swarm is already closed")
 	}
+	// Closing the queue waits for receivers to give their buffers back. A receiver callback may be in the middle of
+	// a Tell on this realm, which needs the realm lock, so the lock must not be held here.
 	s.tells.Close()
 	s.asks.Close()
 }
